@@ -565,7 +565,10 @@ func randomRuns(seed int64, runs int, roles []string, res *vh.Result) {
 }
 
 func main() {
-	mode := flag.String("mode", "replay", "replay | random")
+	mode := flag.String("mode", "replay", "replay | random | record | retrace")
+	trNoPre := flag.String("trace-nopre", "", "record: NDJSON trace of the roles without a pre-consensus phase")
+	trPre := flag.String("trace-pre", "", "record: NDJSON trace of the roles with a pre-consensus phase")
+	reOut := flag.String("retrace-out", "", "retrace: NDJSON trace recorded again while the call sequence is re-run")
 	in := flag.String("in", "", "behaviours NDJSON")
 	out := flag.String("out", "", "result JSON")
 	rolesF := flag.String("roles", "", "comma separated roles the behaviours are replayed on")
@@ -603,6 +606,12 @@ func main() {
 		}
 	case "random":
 		randomRuns(*seed, *runs, roles, res)
+	case "record":
+		recordRuns(*seed, *runs, *trNoPre, *trPre, res)
+	case "retrace":
+		retrace(*in, *reOut, res)
+	default:
+		machinery("unknown mode %q", *mode)
 	}
 	if err := res.Write(*out); err != nil {
 		fmt.Fprintln(os.Stderr, err)
